@@ -159,7 +159,22 @@ def errors_facts(repo):
         if not (isinstance(k, ast.Constant) and isinstance(k.value, int)):
             raise TranslationError("F10", "messages", "non-int key")
         keys.append(k.value)
-    return {"errdefs": [(n, defs[n][0], defs[n][1]) for n in order],
+    # F10: handler call = clear; extend; pretty_tree -- add() works on a deep copy
+    call = [ast.unparse(st) for st in find_func(beh, '__call__').body]
+    if call != ["self.clear()", "self.extend(errors)", "return self.pretty_tree"]:
+        raise TranslationError("F10", "BasicErrorHandler.__call__", "expected clear; extend; return pretty_tree")
+    addb = [st for st in find_func(beh, 'add').body if not (isinstance(st, ast.Expr) and isinstance(st.value, ast.Constant))]
+    add_src = [ast.unparse(st) for st in addb]
+    copies = len(add_src) >= 2 and add_src[0] == "error = deepcopy(error)" and add_src[1] == "self._rewrite_error_path(error)"
+    want_dispatch = ("if error.is_logic_error:\n    self._insert_logic_error(error)\nelif error.is_group_error:\n    self._insert_group_error(error)\n"
+                     "elif error.code in self.messages:\n    self._insert_error(error.document_path, self._format_message(error.field, error))")
+    if not add_src or add_src[-1] != want_dispatch:
+        raise TranslationError("F10", "BasicErrorHandler.add", "dispatch shape changed")
+    pt = [ast.unparse(st) for st in find_func(beh, 'pretty_tree').body]
+    if pt[0] != "pretty = deepcopy(self.tree)":
+        raise TranslationError("F10", "pretty_tree", "expected a deep copy of the tree")
+    return {"handler_add_copies": copies,
+            "errdefs": [(n, defs[n][0], defs[n][1]) for n in order],
             "masks": {"group": masks['is_group_error'], "logic": masks['is_logic_error'],
                       "norm": masks['is_normalization_error']},
             "messages": keys}
@@ -493,7 +508,8 @@ def to_coq(F):
     L.append("  f_validate_prologue := %s;" % clist(map(cs, F['validate_prologue'])))
     L.append("  f_cache_sites := %s;" % clist("(%s, %s)" % (cs(a), cs(b)) for a, b in F['cache_sites']))
     L.append("  f_cache_typed_scalars := %s;" % ("true" if F['cache_typed_scalars'] else "false"))
-    L.append("  f_cache_per_class := %s" % ("true" if F['cache_per_class'] else "false"))
+    L.append("  f_cache_per_class := %s;" % ("true" if F['cache_per_class'] else "false"))
+    L.append("  f_handler_add_copies := %s" % ("true" if F['handler_add_copies'] else "false"))
     L.append("|}.")
     return "\n".join(L) + "\n"
 
